@@ -16,10 +16,10 @@ import (
 // so that a stale tick behaves in the simulation as it does for real.
 
 type Timer struct {
-	C    <-chan time.Time
-	c    chan time.Time
-	mu   sync.Mutex
-	gen  int
+	C      <-chan time.Time
+	c      chan time.Time
+	mu     sync.Mutex
+	gen    int
 	live   bool
 	f      func()
 	cancel chan struct{}
